@@ -12,6 +12,9 @@
  *                 comma separated hex strings = deflate.allowed-encodings values,
  *                 turned into flags by the real mod_deflate_encodings_to_flags()
  *        -> gzip | x-gzip | deflate | none
+ *  name <cache-dir> <physical path> <etag> <pid>
+ *        mod_deflate_cache_file_name() and the name mod_deflate_cache_file_open() creates
+ *        -> <final name> <temporary name>
  *  rs <allowed> <mimes> <min> <maxkb> <cd> <method> <ae> <inm> <status> <flags> <ctype>
  *     <etag> <vary> <cc> <bk> <gen> <len>
  *        mod_deflate_handle_response_start() on a synthetic finished response
@@ -41,7 +44,7 @@
  *        E:T:<file>:<v>.<size>:<label>:<pid>    unlink a temporary cache file
  *        -> one token per op:  q | S:<hit>:<label>:z<hex body> | E | X
  *           then "|" and the cache directory listing:
- *           F:<file>:<v>.<size>:<label>:z<hex content>   T:<file>:<v>.<size>:<label>:<pid>:<size>
+ *           F:<file>:<v>.<size>:<label>:z<hex content>   T:<file>:<v>.<size>:<label>:<pid>:z<hex content>
  */
 #include "first.h"
 #include "harness_common.h"
@@ -110,9 +113,11 @@ static ssize_t ltv_write(int fd, const void *buf, size_t n) {
     }
 }
 
+static char last_creat_path[8300];
 static int ltv_open_cloexec(const char *path, int symlinks, int flags, mode_t mode) {
     if (flags & O_CREAT) {
         plan.opened = 1;
+        snprintf(last_creat_path, sizeof(last_creat_path), "%s", path);
         if (!plan.open_ok) { errno = EACCES; return -1; }
         return (plan.tmp_fd = fdevent_open_cloexec(path, symlinks, flags, mode));
     }
@@ -299,6 +304,33 @@ static void op_ae(void) {
     else puts(label ? label : "NULL-label");
     free(h);
     if (!isdef) free(x);
+}
+
+/* ---------------------------------------------------------------- op: name */
+static void op_name(void) {
+    request_st * const r = &rq;
+    size_t nd, np, ne;
+    unsigned char *d = ltv_unhex(ltv_tok[1], &nd);
+    unsigned char *pa = ltv_unhex(ltv_tok[2], &np);
+    unsigned char *e = ltv_unhex(ltv_tok[3], &ne);
+    if (ne < 2) { puts("bad-op"); free(d); free(pa); free(e); return; }
+    buffer *dir = buffer_init(), *etag = buffer_init();
+    buffer_copy_string_len(dir, (char *)d, nd);
+    buffer_copy_string_len(etag, (char *)e, ne);
+    buffer_copy_string_len(&r->physical.path, (char *)pa, np);
+    buffer *tb = mod_deflate_cache_file_name(r, dir, etag);
+    ltv_puthex(tb->ptr, buffer_clen(tb));
+    plan.open_ok = 0; plan.pid = atoi(ltv_tok[4]); plan.tmp_fd = -1; plan.opened = 0;
+    last_creat_path[0] = 0;
+    handler_ctx *hctx = handler_ctx_init();
+    mod_deflate_cache_file_open(hctx, tb);          /* open() is scripted to fail: only the name is taken */
+    fputc(' ', stdout);
+    ltv_puthex(last_creat_path, strlen(last_creat_path));
+    fputc('\n', stdout);
+    handler_ctx_free(hctx);
+    buffer_free(dir); buffer_free(etag);
+    free(d); free(pa); free(e);
+    plan.open_ok = 1;
 }
 
 /* ---------------------------------------------------------------- op: rs */
@@ -530,7 +562,15 @@ static void list_cache(const char *dir) {
                             ok = 1;
                         }
                         else if (*rest == '.' && rest[1] >= '0' && rest[1] <= '9') {
-                            fprintf(ms, "T:%ld:%s:%s:%s:%lld", file, vt, labels[i], rest + 1, (long long)st.st_size);
+                            unsigned char *buf = malloc((size_t)st.st_size + 1);
+                            int fd = open(p, O_RDONLY);
+                            ssize_t rd = fd >= 0 ? read(fd, buf, (size_t)st.st_size) : -1;
+                            if (fd >= 0) close(fd);
+                            fprintf(ms, "T:%ld:%s:%s:%s:z", file, vt, labels[i], rest + 1);
+                            FILE *real = stdout; stdout = ms;
+                            ltv_puthex(buf, rd > 0 ? (size_t)rd : 0);
+                            fflush(ms); stdout = real;
+                            free(buf);
                             ok = 1;
                         }
                     }
@@ -667,7 +707,7 @@ static void op_cache(void) {
     fputs(" |", stdout);
     nlisting = 0;
     list_cache(cachedir);
-    qsort(listing, (size_t)nlisting, sizeof(char *), cmpstr);
+    if (nlisting) qsort(listing, (size_t)nlisting, sizeof(char *), cmpstr);
     for (int i = 0; i < nlisting; ++i) { fputc(' ', stdout); fputs(listing[i], stdout); free(listing[i]); }
     if (collision) fputs(" etag-collision", stdout);
     fputc('\n', stdout);
@@ -687,6 +727,15 @@ int main(void) {
     snprintf(cachedir, sizeof(cachedir), "%s/c", scratch);
     mkdir(docdir, 0700);
     mkdir(cachedir, 0700);
+    {   /* compressed output beyond 64 KB goes to chunk-queue temporary files */
+        static char tdir[4100];
+        snprintf(tdir, sizeof(tdir), "%s/t", scratch);
+        mkdir(tdir, 0700);
+        array *tds = array_init(1);
+        array_insert_value(tds, tdir, (uint32_t)strlen(tdir));
+        chunkqueue_set_tempdirs_default_reset();
+        chunkqueue_set_tempdirs_default(tds, 0);
+    }
 
     int devnull = open("/dev/null", O_WRONLY);
     errh = fdlog_init(NULL, devnull, FDLOG_FD);
@@ -723,6 +772,7 @@ int main(void) {
         const char *op = ltv_tok[0];
         if (0 == strcmp(op, "ae") && ltv_ntok == 3) op_ae();
         else if (0 == strcmp(op, "rs") && ltv_ntok == 18) op_rs();
+        else if (0 == strcmp(op, "name") && ltv_ntok == 5) op_name();
         else if (0 == strcmp(op, "cache") && ltv_ntok >= 1) op_cache();
         else puts("bad-op");
         fflush(stdout);
